@@ -8,3 +8,9 @@ pub use adam::AdamOptions;
 pub(crate) use adapt::Strategy;
 pub use adapt::{StepSizeAdaptMethod, StepSizeAdaptOptions, StepSizeSettings};
 pub(crate) use dual_avg::AcceptanceRateCollector;
+
+#[cfg(nuts_rs_verif)]
+pub use {
+    adam::Adam as VerifAdam,
+    dual_avg::{DualAverage as VerifDualAverage, DualAverageOptions as VerifDualAverageOptions},
+};
